@@ -5,9 +5,15 @@
   list of calls; answers whether a converter is produced and, per call, the
   value the model converter returns and the value of `convertSpec`.
   op "link": the linking of every field of one destination model.
+  op "history": a list of initial retort recipes and a list of facade operations
+  (extend / get_converter / convert / impl_converter, each with its per-call
+  recipe and calls); answers per operation what the facade model with its
+  converter cache returns (`runHistory`) and, independently, `convertSpec`
+  under the recipe the specification puts in force (`specRecipes`).
 -/
 import AdaptixModel.Protocol
 import AdaptixModel.Conv.Convert
+import AdaptixModel.Conv.Facade
 
 namespace Adaptix.Ops.C13
 open Lean Adaptix.Protocol Adaptix.Conv13
@@ -302,6 +308,49 @@ def handle : Protocol.Handler := fun j => do
           let req : LinkReq := { srcStack := src, sources := ss.fields, params := extra.map SigParam.ctx, dst := f.loc :: dst }
           listJ [Json.str f.id, encFieldLink (fetchFieldLinking recipe req f)])
       | _, _ => throw "not models"
+  | "history" =>
+    let WJ ← decWorld (← field j "world")
+    let W := WJ.toWorld
+    let fuel ← (fieldNat j "fuel" <|> pure 32)
+    let recipes ← (← fieldArr j "retorts").mapM fun r => do (← asArr r).mapM decProvider
+    let stepsJ ← fieldArr j "steps"
+    let ops ← stepsJ.mapM fun sj => do
+      let i ← fieldNat sj "on"
+      let recipe ← (← fieldArr sj "recipe").mapM decProvider
+      match ← fieldStr sj "op" with
+      | "extend" => return FacadeOp.extend i recipe
+      | "get" =>
+        let name ← match optField sj "name" with
+          | none => pure none
+          | some n => do pure (some (← asStr n))
+        return FacadeOp.getConverter i ⟨← decTy (← field sj "src"), ← decTy (← field sj "dst"), name⟩ recipe
+      | "convert" => return FacadeOp.convert i (← decTy (← field sj "src")) (← decTy (← field sj "dst")) recipe
+      | "impl" => return FacadeOp.implConverter i (← decSignature (← field sj "sig")) recipe
+      | o => throw s!"bad facade op {o}"
+    let answers := (runHistory W fuel (recipes.map Retort.new) ops).1
+    let inForce := specRecipes recipes ops
+    let wf := WJ.ins.all (fun e => shapeWFb e.2) &&
+      ops.all (fun op => match op.signature? with
+        | some sig => nodupB (sig.params.map (·.name))
+        | none => true)
+    let rows ← ((stepsJ.zip ops).zip (answers.zip inForce)).mapM fun ((sj, op), (ans, rc)) => do
+      match op.signature?, rc with
+      | some sig, some recipe =>
+        match ans with
+        | none => return Json.mkObj [("created", false)]
+        | some c =>
+          let calls ← fieldArr sj "calls"
+          let results ← calls.mapM fun cj => do
+            let args ← (← fieldArr cj "args").mapM decVal
+            let kwargs ← decPairs cj "kwargs"
+            let spec := match bindSig sig.params args kwargs with
+              | some vals => convertSpec W recipe fuel sig vals
+              | none => none
+            return Json.mkObj [("model", encOptVal (c.call args kwargs)), ("spec", encOptVal spec)]
+          return Json.mkObj [("created", true), ("results", listJ results)]
+      | none, _ => return Json.mkObj [("extended", true)]
+      | _, none => return Json.mkObj [("no_retort", true)]
+    return Json.mkObj [("wf", wf), ("steps", listJ rows)]
   | _ => throw s!"unknown op {op}"
 
 end Adaptix.Ops.C13
